@@ -314,6 +314,11 @@ class Gen:
 
     def command_spec(self):
         r = self.r
+        # now and then the very same definition again (byte-identical script): under the same name in another context, or
+        # as a re-definition in the same one - two definitions all the same, each with its own id
+        prev = [st["spec"] for st in self.steps if st["k"] == "define" and not st["spec"].get("invalid")]
+        if prev and r.random() < 0.3:
+            return json.loads(json.dumps(r.choice(prev)))
         if r.random() < 0.12:
             return {"invalid": True, "appends": [], "values_nu": []}
         # a small pool, so that byte-identical definitions turn up under one name in two contexts
@@ -418,9 +423,23 @@ class Gen:
             x = r.random()
             if x < 0.22 or not self.handlers:
                 name, c = r.choice(self.names), self.ctx()
+                spec = self.handler_spec(history_ok, name)
+                replaying = spec.get("resume") not in (None, "tail") and not spec.get("invalid") and self.n_append and r.random() < 0.6
+                if replaying:
+                    # a handler that resumes from history, and clients appending while its replay is still under way (every
+                    # historical scan is held before its first frame): those frames have ids below its threshold marker's and
+                    # are handed to it after the marker - each once, like any other
+                    self.steps.append({"k": "park_hist", "ms": r.choice([120, 200])})
                 self.handlers.append((len(self.steps), name, c))
-                self.steps.append({"k": "register", "name": name, "ctx": c, "spec": self.handler_spec(history_ok, name)})
-                if r.random() < 0.12:
+                self.steps.append({"k": "register", "name": name, "ctx": c, "spec": spec})
+                if replaying:
+                    self.steps.append({"k": "sleep", "ms": 40})
+                    for _ in range(r.randint(1, 3)):
+                        self.steps.append({"k": "append", "topic": r.choice(TOPICS), "ctx": c, "meta": None, "content": None, "ttl": None})
+                        self.n_append += 1
+                    self.steps.append({"k": "park_hist", "ms": 0})
+                    self.steps.append({"k": "settle"})
+                elif r.random() < 0.12:
                     # a stop request right behind the registration, committed while the handler starts up
                     self.steps.append({"k": "unregister", "name": name, "ctx": c, "park_ms": r.choice([80, 200])})
                     self.steps.append({"k": "settle", "ms": 400})
@@ -614,6 +633,8 @@ def run_impl(sc, keep_dir=False, settle_ms=250):
                 obs = w.call(op)
             elif k == "unregister":
                 obs = w.call(frame_op("append", st["name"] + ".unregister", ctx_hex(st["ctx"])))
+            elif k == "park_hist":
+                obs = w.call({"op": "park_hist", "ms": st.get("ms", 0)})
             elif k == "sleep":
                 time.sleep(st.get("ms", 100) / 1000.0)
             elif k == "settle":
